@@ -154,7 +154,8 @@ def configs_for(tier, seed):
             ops += freq_ops(mem, rot + 3 * i + j, 4 if thorough else 3, lin=(j == 0), with8=thorough)
             if ant != (0, 0) or i % 4 == 0:
                 ops += dirs
-            add("tdl", name, ant, ops=ops, variant=i + j, maxpos=mp if ant != (2, 3) or thorough else 10,
+            small = (ant[0] or 1) * (ant[1] or 1) <= 2
+            add("tdl", name, ant, ops=ops, variant=i + j, maxpos=(20 if small else 16) if thorough else (10 if ant == (2, 3) else mp),
                 ts=("dec" if name in TIE_FREE and (i + j) % 2 else "dy" if (i + j) % 3 else "one"))
     # --- SuChannel / SuMimoChannel with a scalar path loss
     su_pls = [[[(1, 2)]], [[(3, 5)]], [[(1, 1)]]]
